@@ -376,7 +376,11 @@ def run_case(case: dict) -> dict:
                 nontrivial = nontrivial or _annotations(model) >= 3
             elif op == "clone":
                 had = _annotations(model)
-                model = model.clone()
+                if c % 3 == 1:
+                    model = model.clone(deep_copy=True)
+                    inc("clone_deep_copy")
+                else:
+                    model = model.clone()
                 inc("clone")
                 if had >= 3:
                     inc("reach_clone_with_annotations")
